@@ -96,6 +96,9 @@ func (x *X) Trivial() { x.trivial = true }
 
 // Failf records a violation. key is matched against known_findings.json.
 func (x *X) Failf(key, format string, a ...any) {
+	if len(x.fails) >= 25 {
+		return // enough evidence from one execution; keeps memory bounded when an inner loop fails everywhere
+	}
 	lbl := make([]string, len(x.Points))
 	for i, p := range x.Points {
 		lbl[i] = fmt.Sprintf("%s=%d/%d", p.Label, x.Choices[i], p.N)
